@@ -67,3 +67,13 @@ package federation
 // failed with "not an object" when the null sat exactly where the keys for the next service are collected).
 //@ func pathSubqueryMetadata.extractKeys
 //@   ensures node == nil ==> err == nil
+
+// ---- C19 (gateway, same-alias merge): only selections whose own directives allow them are handed to mergeSameAlias, which
+// keeps just one copy's directives per alias (defect s25: an excluded occurrence was merged into an included one, or the
+// other way round).
+//@ func flattener.flatten
+//@   ghost okSel map[*graphql.Selection]bool
+//@   call ShouldIncludeNode assert arg0 == selection.Directives
+//@   call ShouldIncludeNode ghost okSel[selection] = ret0 && ret1 == nil
+//@   call append#1 assert okSel[selection]
+//@   call mergeSameAlias assert arg0 == included
